@@ -98,10 +98,12 @@ class Report:
         st = PROVED if ok is True else REFUTED if ok is False else UNDECIDED
         return self.add(Ob(rule, construct, statement, st, **kw))
 
-    def count(self, rule, proved=0, nontrivial=0):
-        b = self.bulk.setdefault(rule, {"proved": 0, "nontrivial": 0})
+    def count(self, rule, proved=0, nontrivial=0, refuted=0):
+        """bulk evaluations; `refuted` counts evaluations whose refutation is reported through a grouped obligation"""
+        b = self.bulk.setdefault(rule, {"proved": 0, "nontrivial": 0, "refuted": 0})
         b["proved"] += proved
         b["nontrivial"] += nontrivial
+        b["refuted"] = b.get("refuted", 0) + refuted
 
     def floor(self, rule, n):
         self.floors[rule] = n
@@ -128,10 +130,11 @@ class Report:
         for rule, b in self.bulk.items():
             d = by_rule.setdefault(rule, {PROVED: 0, REFUTED: 0, UNDECIDED: 0})
             d[PROVED] += b["proved"]
+            d["grouped_refuted"] = b.get("refuted", 0)
         incomplete = list(self.incomplete)
         for rule, n in self.floors.items():
             d = by_rule.get(rule, {PROVED: 0, REFUTED: 0, UNDECIDED: 0})
-            decided = d[PROVED] + d[REFUTED]
+            decided = d[PROVED] + d[REFUTED] + d.get("grouped_refuted", 0)
             if decided < n:
                 incomplete.append(f"rule {rule}: decided {decided} < floor {n} (undecided {d[UNDECIDED]})")
         opened, fixed = load_known()
